@@ -1,16 +1,19 @@
 #!/bin/bash
 # usage: tools/seed_run.sh <mutation dir> <tier> <check id>...
-# Applies patch.diff to /repo, runs the checks, reverts /repo. Prints DETECTED/MISSED per check.
+# Applies patch.diff to a scratch worktree of /repo's HEAD (never to /repo itself), runs the checks against that
+# tree (VERIF_REPO) with all output redirected to a scratch directory (VERIF_OUT), removes both.
+# Prints DETECTED/MISSED per check. Equivalent to: git -C /repo apply; ./run.sh ...; git -C /repo checkout -- .
 set -u
 m=$(realpath "$1"); tier=$2; shift 2
-cd /repo && git diff --quiet || { echo "/repo is dirty"; exit 2; }
-git -C /repo apply $m/patch.diff || { echo "patch does not apply"; exit 2; }
-trap 'git -C /repo checkout -- . ' EXIT
+wt=/tmp/seedrun.$$; out=/tmp/seedout.$$
+git -C /repo worktree add -q --detach $wt HEAD || exit 2
+trap 'git -C /repo worktree remove --force $wt; rm -rf $out' EXIT
+git -C $wt apply $m/patch.diff || { echo "patch does not apply"; exit 2; }
 for id in "$@"; do
-  out=$(cd /verif && ./run.sh $id $tier 2>&1); rc=$?
-  if [ $rc -eq 1 ] && echo "$out" | grep -q "^VIOLATION property=$id"; then
-    echo "DETECTED $id ($(echo "$out" | grep -m1 'key=' | cut -c1-200))"
+  o=$(cd /verif && VERIF_REPO=$wt VERIF_OUT=$out ./run.sh $id $tier 2>&1); rc=$?
+  if [ $rc -eq 1 ] && echo "$o" | grep -q "^VIOLATION property=$id"; then
+    echo "DETECTED $id ($(echo "$o" | grep -m1 'key=' | cut -c1-200))"
   else
-    echo "MISSED $id rc=$rc $(echo "$out" | head -1 | cut -c1-150)"
+    echo "MISSED $id rc=$rc $(echo "$o" | head -1 | cut -c1-150)"
   fi
 done
